@@ -217,7 +217,7 @@ def panelTopLineS (A : SOps σ) (env : Env) (sv : SVariant) (s b : σ) (title : 
   match title with
   | none => some [segS (some (A.add s b)) (boxTop box cwid)]
   | some t =>
-    match t.render (A.add s b) (cwid - 2) box.top (if sv.titleAtConsoleWidth then (env.consoleWidth : Int) else max 1 (cwid - 2)) with
+    match t.render (A.add s b) (cwid - 2) box.top (if sv.titleAtConsoleWidth then (env.consoleWidth : Int) else cwid - 2) with
     | none => none
     | some ts => some ([segS (some (A.add s b)) [box.topLeft, box.top]] ++ ts ++ [segS (some (A.add s b)) [box.top, box.topRight]])
 
@@ -285,7 +285,7 @@ theorem panelConsoleS_lines (cw : Char → Nat) (hsp : cw ' ' = 1) (h2 : ∀ c, 
   | some t =>
     simp only at h
     cases hts : t.render (A.add s b) (cwid - 2) box.top
-        (if sv.titleAtConsoleWidth = true then (env.consoleWidth : Int) else max 1 (cwid - 2)) with
+        (if sv.titleAtConsoleWidth = true then (env.consoleWidth : Int) else cwid - 2) with
     | none => simp [hts] at h
     | some ts =>
       simp only [hts] at h
@@ -317,6 +317,8 @@ theorem simpleTitle_nlFree (cw : Char → Nat) (v : Variant) (title : List Char)
     subst h
     intro st n ch rw ts hts
     simp only at hts
+    split at hts
+    · simp only [Option.some.injEq] at hts; subst hts; exact NlFree.nil
     cases hx : textConsoleSimple (σ := σ) cw v (textAlign cw t0 a n ch) [] rw with
     | none => simp [hx] at hts
     | some ts0 =>
